@@ -582,10 +582,10 @@ package parse
 //@   like parserFn
 //@   measure rem(t), 4
 //@   loop 0
-//@     invariant stepOK(t)
+//@     invariant stepOK(t) && fresh(directives)
 //@     decreases ntoks(t.lex) - cursor(t)
 //@   loop 1
-//@     invariant stepOK(t) && ntoks(t.lex) - cursor(t) < loopvariant(0)
+//@     invariant stepOK(t) && ntoks(t.lex) - cursor(t) < loopvariant(0) && fresh(directives) && fresh(args)
 //@     decreases ntoks(t.lex) - cursor(t)
 
 //@ func (*tree).parseAlias
@@ -644,14 +644,14 @@ package parse
 //@   like parserFn
 //@   measure rem(t), 4
 //@   loop 0
-//@     invariant stepOK(t) && t.aliases != nil
+//@     invariant stepOK(t) && t.aliases != nil && fresh(conds)
 //@     decreases ntoks(t.lex) - cursor(t)
 
 //@ func (*tree).parseSoyDoc
 //@   like parserFn
 //@   measure rem(t), 4
 //@   loop 0
-//@     invariant stepOK(t)
+//@     invariant stepOK(t) && fresh(params)
 //@     decreases ntoks(t.lex) - cursor(t)
 
 //@ func (*tree).parseAttrs
@@ -701,7 +701,7 @@ package parse
 //@   measure rem(t), 6
 //@   nosafety
 //@   loop 0
-//@     invariant stepOK(t)
+//@     invariant stepOK(t) && fresh(cases)
 
 // Message bodies. parseMsgRawText cuts the text at regexp matches (assumed
 // non-empty and inside the text): in bounds, terminating, touches nothing that
